@@ -37,7 +37,7 @@ func H_C17_empty_sound() {
 	nd.Reach("end")
 }
 
-//verif:harness props=C17 tier=quick split=16 bounds="two ranges as above (float64 bounds only in quick), v = nil/float64/bool: a value in both ranges is in their intersection, and the intersection is not reported empty"
+//verif:harness props=C17 tier=quick bounds="two ranges as above (float64 bounds only in quick), v = nil/float64/bool: a value in both ranges is in their intersection, and the intersection is not reported empty"
 func H_C17_intersect_sound() {
 	o := ref.Opts{Kinds: ref.KFloat}
 	r1, rr1 := genRange("r1", o)
@@ -52,7 +52,7 @@ func H_C17_intersect_sound() {
 	nd.Reach("end")
 }
 
-//verif:harness props=C17 tier=thorough split=32 bounds="two ranges with bounds nil or float64/string<=1 (mixed ranks), v = nil/float64/string<=1/bool"
+//verif:harness props=C17 tier=thorough bounds="two ranges with bounds nil or float64/string<=1 (mixed ranks), v = nil/float64/string<=1/bool"
 func H_C17_intersect_sound_mixed() {
 	r1, rr1 := genRange("r1", c17Bound)
 	r2, rr2 := genRange("r2", c17Bound)
